@@ -27,6 +27,8 @@ type Job struct {
 	Locate  bool       `json:"locate"`  // C07: check bounds/text
 	Timeout int        `json:"timeout"` // seconds per Lint call
 	Detail  int        `json:"detail"`  // max issues of one kind+rule reported in full per batch
+	Par     int        `json:"par"`     // batches processed concurrently inside the worker
+	Todo    []int      `json:"todo"`    // indices of the batches this worker run has to process
 }
 
 type BatchResult struct {
@@ -60,7 +62,8 @@ type ShiftFinding struct {
 	Module Module     `json:"module"`
 }
 
-// RunWorker processes a job file; results go to out (JSON lines, flushed per batch).
+// RunWorker processes the batches listed in job.Todo, `Par` of them concurrently; results go to out
+// (JSON lines: one "start" line and one result line per batch, synced).
 func RunWorker(jobPath, outPath string) {
 	bs, err := os.ReadFile(jobPath)
 	if err != nil {
@@ -75,20 +78,41 @@ func RunWorker(jobPath, outPath string) {
 		panic(err)
 	}
 	defer f.Close()
+	var mu sync.Mutex
 	emit := func(r BatchResult) {
 		b, _ := json.Marshal(r)
+		mu.Lock()
+		defer mu.Unlock()
 		f.Write(append(b, '\n'))
 		f.Sync()
 	}
-	var first int
-	if s := os.Getenv("VERIF_FIRST_BATCH"); s != "" {
-		fmt.Sscanf(s, "%d", &first)
+	par := job.Par
+	if par < 1 {
+		par = 1
 	}
-	for i := first; i < len(job.Batches); i++ {
-		emit(BatchResult{Batch: i, Start: true, N: len(job.Batches[i])})
-		emit(runBatch(i, job.Batches[i], &job))
+	ch := make(chan int)
+	var wg sync.WaitGroup
+	for w := 0; w < par; w++ {
+		wg.Add(1)
+		go func() {
+			defer wg.Done()
+			for i := range ch {
+				emit(BatchResult{Batch: i, Start: true, N: len(job.Batches[i])})
+				emit(runBatch(i, job.Batches[i], &job))
+			}
+		}()
 	}
+	for _, i := range job.Todo {
+		ch <- i
+	}
+	close(ch)
+	wg.Wait()
 }
+
+var (
+	minimised   = map[string]bool{}
+	minimisedMu sync.Mutex
+)
 
 func runBatch(idx int, mods []Module, job *Job) BatchResult {
 	res := BatchResult{Batch: idx, N: len(mods), ByRule: map[string]int{}}
@@ -113,7 +137,7 @@ func runBatch(idx int, mods []Module, job *Job) BatchResult {
 		fl := Bisect(parsed, timeout)
 		res.Lints += 8
 		if len(fl.Modules) == 0 { // not reproducible on its own
-			fl = Failure{Err: out.Err + " (not reproducible when re-run)", Timeout: out.Timeout}
+			fl = Failure{Key: "flaky: " + FailureKey(out.Err), Err: out.Err + " (not reproducible when re-run)", Timeout: out.Timeout}
 			for _, p := range parsed {
 				fl.Modules = append(fl.Modules, p.Module)
 			}
@@ -121,12 +145,17 @@ func runBatch(idx int, mods []Module, job *Job) BatchResult {
 			parsed = nil
 			break
 		}
-		if len(fl.Modules) == 1 {
-			cls := ErrClass(fl.Err)
+		fl.Key = FailureKey(fl.Err)
+		minimisedMu.Lock()
+		first := !minimised[fl.Key]
+		minimised[fl.Key] = true // one minimised witness per failure signature and worker is enough
+		minimisedMu.Unlock()
+		if len(fl.Modules) == 1 && first {
+			key := fl.Key
 			fl.Modules[0] = MinimiseText(fl.Modules[0], func(p Parsed) bool {
 				o := LintBatch([]Parsed{p}, timeout)
-				return o.Err != "" && ErrClass(o.Err) == cls
-			}, 60)
+				return o.Err != "" && FailureKey(o.Err) == key
+			}, 80)
 		}
 		res.Failures = append(res.Failures, fl)
 		bad := map[string]bool{}
@@ -197,6 +226,7 @@ func runBatch(idx int, mods []Module, job *Job) BatchResult {
 			res.Lints++
 			if ok.Err != "" {
 				fl := Bisect(sb, timeout)
+				fl.Key = "shifted: " + FailureKey(fl.Err)
 				fl.Err = fmt.Sprintf("after inserting %d blank lines: %s", k, fl.Err)
 				res.Failures = append(res.Failures, fl)
 				continue
@@ -215,22 +245,28 @@ func runBatch(idx int, mods []Module, job *Job) BatchResult {
 	return res
 }
 
-// RunMaster runs the job in worker subprocesses and returns one result per batch (index-aligned; batches
-// re-queued after a crash are appended).
+// RunMaster runs the job in worker subprocesses and returns one result per batch (batches re-queued after a
+// crash are appended as single-module batches).
 func RunMaster(self, tmp string, job *Job, watchdog time.Duration) []BatchResult {
 	results := map[int]BatchResult{}
-	next := 0
+	todo := make([]int, len(job.Batches))
+	for i := range todo {
+		todo[i] = i
+	}
 	round := 0
-	for next < len(job.Batches) {
+	for len(todo) > 0 {
 		round++
+		if round > 200 {
+			panic("too many worker restarts")
+		}
 		jp := filepath.Join(tmp, fmt.Sprintf("job_%d.json", round))
 		op := filepath.Join(tmp, fmt.Sprintf("out_%d.jsonl", round))
+		job.Todo = todo
 		jb, _ := json.Marshal(job)
 		if err := os.WriteFile(jp, jb, 0o644); err != nil {
 			panic(err)
 		}
 		cmd := exec.Command(self, "worker", jp, op)
-		cmd.Env = append(os.Environ(), fmt.Sprintf("VERIF_FIRST_BATCH=%d", next))
 		var tail tailBuf
 		cmd.Stdout = &tail
 		cmd.Stderr = &tail
@@ -242,7 +278,7 @@ func RunMaster(self, tmp string, job *Job, watchdog time.Duration) []BatchResult
 		killed := false
 		lastSize := int64(-1)
 		lastChange := time.Now()
-		tick := time.NewTicker(500 * time.Millisecond)
+		tick := time.NewTicker(300 * time.Millisecond)
 	wait:
 		for {
 			select {
@@ -261,7 +297,8 @@ func RunMaster(self, tmp string, job *Job, watchdog time.Duration) []BatchResult
 			}
 		}
 		tick.Stop()
-		inflight := -1
+		inflight := map[int]bool{}
+		progressed := false
 		if f, err := os.Open(op); err == nil {
 			sc := bufio.NewScanner(f)
 			sc.Buffer(make([]byte, 1<<20), 1<<28)
@@ -270,38 +307,53 @@ func RunMaster(self, tmp string, job *Job, watchdog time.Duration) []BatchResult
 				if json.Unmarshal(sc.Bytes(), &r) != nil {
 					continue
 				}
+				progressed = true
 				if r.Start {
-					inflight = r.Batch
+					inflight[r.Batch] = true
 				} else {
 					results[r.Batch] = r
-					inflight = -1
-					if r.Batch >= next {
-						next = r.Batch + 1
-					}
+					delete(inflight, r.Batch)
 				}
 			}
 			f.Close()
 		}
-		if inflight >= 0 {
-			// the worker died (or was killed) inside this batch
-			why := "worker crashed: " + tail.String()
-			if killed {
-				why = fmt.Sprintf("worker made no progress for %s and was killed (hang)", watchdog)
-			}
-			b := job.Batches[inflight]
-			if len(b) == 1 {
-				results[inflight] = BatchResult{Batch: inflight, N: 1, Crash: why,
-					Failures: []Failure{{Modules: b, Err: why, Timeout: killed}}}
+		if !progressed {
+			panic("worker failed to start: " + tail.String())
+		}
+		why := "worker crashed: " + tail.String()
+		if killed {
+			why = fmt.Sprintf("worker made no progress for %s and was killed (hang)", watchdog)
+		}
+		var inf []int
+		for i := range inflight {
+			inf = append(inf, i)
+		}
+		sort.Ints(inf)
+		for _, i := range inf {
+			// the worker died (or was killed) while this batch was in flight
+			b := job.Batches[i]
+			if len(b) == 1 && len(inf) == 1 {
+				results[i] = BatchResult{Batch: i, N: 1, Crash: why,
+					Failures: []Failure{{Key: FailureKey(why), Modules: b, Err: why, Timeout: killed}}}
+			} else if len(b) == 1 {
+				// several batches were in flight: run this one again, alone
+				job.Batches = append(job.Batches, b)
+				results[i] = BatchResult{Batch: i, N: 0, Crash: "re-queued alone"}
 			} else {
-				results[inflight] = BatchResult{Batch: inflight, N: len(b), Crash: "re-queued as single-module batches: " + clip(why, 300)}
+				results[i] = BatchResult{Batch: i, N: 0, Crash: "re-queued as single-module batches: " + clip(why, 300)}
 				for _, m := range b {
 					job.Batches = append(job.Batches, []Module{m})
 				}
 			}
-			next = inflight + 1
-		} else if next < len(job.Batches) && lastSize <= 0 {
-			// worker could not even start
-			panic("worker failed to start: " + tail.String())
+		}
+		if len(inf) > 0 {
+			job.Par = 1 // after a crash continue one batch at a time so that the culprit is unambiguous
+		}
+		todo = todo[:0]
+		for i := range job.Batches {
+			if _, ok := results[i]; !ok {
+				todo = append(todo, i)
+			}
 		}
 	}
 	var res []BatchResult
